@@ -56,6 +56,24 @@ def _polars_validate(kind: str, scope: str) -> str:
         return "rejected"
 
 
+def _polars_column_validate(kind: str, scope: str) -> str:
+    import polars as pl
+    import pandera as pa
+    import pandera.polars as pap
+    from pandera.errors import SchemaError, SchemaErrors
+
+    col = pap.Column(pl.Int64, pa.Check.gt(0), name="a")
+    df = pl.DataFrame({"a": [1, -1]}) if scope == "data" else pl.DataFrame({"a": [1.0, 2.0]})
+    obj = df.lazy() if kind == "lazyframe" else df
+    try:
+        out = col.validate(obj)
+        if isinstance(out, pl.LazyFrame):
+            out.collect()
+        return "returned"
+    except (SchemaError, SchemaErrors):
+        return "rejected"
+
+
 def _pandas_validate(scope: str) -> str:
     import pandas as pd
     import pandera as pa
@@ -101,6 +119,9 @@ def observe_config(vec: Dict[str, Any]) -> Dict[str, Any]:
                 return i + 1
             elif op["op"] == "polars_validate":
                 out.append(_observe(_polars_validate(op["kind"], op["scope"])))
+                i += 1
+            elif op["op"] == "polars_column_validate":
+                out.append(_observe(_polars_column_validate(op["kind"], op["scope"])))
                 i += 1
             elif op["op"] == "pandas_validate":
                 out.append(_observe(_pandas_validate(op["scope"])))
